@@ -1,9 +1,9 @@
 #!/bin/bash
 # runs seeded changes against their own property's quick check (plus extra checks listed in
 # seeded/<id>/extra_checks, if present) and writes seeded/RESULTS.tsv (or RESULTS_<tag>.tsv)
-# usage: tools/seed_battery.sh [glob-of-ids, default 'C??-?'] [tag]
+# usage: tools/seed_battery.sh [glob-of-ids, default 'C??-*'] [tag]
 cd /verif
-PAT=${1:-C??-?}
+PAT=${1:-C??-*}
 OUT=seeded/RESULTS${2:+_$2}.tsv
 : > $OUT
 for d in seeded/$PAT; do
